@@ -972,10 +972,11 @@ impl Bgi {
     }
 
     pub fn flood_fill(&mut self, x: i32, y: i32, border: u8) {
-        if !self.viewport.contains(x, y) {
+        if !self.viewport.contains(x, y) || x < 0 || y < 0 || x >= self.window.width || y >= self.window.height {
             return;
         }
-        let mut fill_lines = vec![Vec::new(); self.viewport.get_height() as usize];
+        // indexed by the absolute y coordinate
+        let mut fill_lines = vec![Vec::new(); self.window.height as usize];
         let mut point_stack = Vec::new();
 
         if self.screen[(y * self.window.width + x) as usize] != border {
@@ -1737,6 +1738,9 @@ impl Bgi {
     }
 
     pub fn set_viewport(&mut self, x0: i32, y0: i32, x1: i32, y1: i32) {
+        // the viewport can't be larger than the screen
+        let (x0, x1) = (x0.clamp(0, self.window.width), x1.clamp(0, self.window.width));
+        let (y0, y1) = (y0.clamp(0, self.window.height), y1.clamp(0, self.window.height));
         self.viewport = Rectangle::from(x0, y0, x1 - x0, y1 - y0);
     }
     pub fn clear_viewport(&mut self) {
